@@ -254,3 +254,4 @@ def run(chk):
     rule_meta(chk)
     from . import c03
     c03.rule_propagate(chk)
+    c03.rule_truthful(chk)  # the logged action's end is 'succeeded' (with the result) exactly when the call returned
